@@ -476,11 +476,16 @@ J_C06(S, a, site, inp, S2, o, G, G2) ==
 -----------------------------------------------------------------------------
 (* C07: put never overwrites; KeyAlreadyExists only for readable keys *)
 
-RejExistsVerdict(S, k) ==
+DeleteInFlight(G, k) == \E id \in DOMAIN G.ops : G.ops[id].k = k /\ G.ops[id].kind = "del"
+
+RejExistsVerdict(S, G, k) ==
   IF ~Present(S, k) THEN <<V("C07", "violation", "", "put of an absent key rejected with KeyAlreadyExists")>>
   ELSE LET e == S.store[k] IN
        IF Alive(e, S.now) THEN <<>>
-       ELSE IF e.soft THEN <<>>   \* a delete is in flight: not one of the states the statement lists
+       ELSE IF e.soft
+       THEN \* a delete in flight is not one of the states the statement lists; a mark that outlives every delete is
+            IF DeleteInFlight(G, k) THEN <<>>
+            ELSE <<V("C07", "violation", "", "put rejected with KeyAlreadyExists for a key that reads as absent: its entry is marked deleted although no delete of it is pending")>>
        ELSE <<V("C07", "known", "D4", "put of a key past its time to live (not swept yet) rejected with KeyAlreadyExists")>>
 
 J_C07(S, a, site, inp, S2, o, G, G2) ==
@@ -488,7 +493,7 @@ J_C07(S, a, site, inp, S2, o, G, G2) ==
   CASE site = "C_PutCheck" /\ IsCaller(a) ->
          LET k == o.op.k
              rejected == o.next = "C_Idle" /\ o.ret.st = StRejExists
-         IN (IF rejected THEN RejExistsVerdict(S, k) ELSE <<>>)
+         IN (IF rejected THEN RejExistsVerdict(S, G, k) ELSE <<>>)
             \o (IF Readable(S, k) /\ ~rejected
                 THEN <<V("C07", "violation", "", "put of a readable key was not rejected on the spot")>> ELSE <<>>)
             \o (IF Readable(S, k) /\ (S2.store # S.store \/ S2.kw # S.kw \/ S2.used # S.used \/ S2.ttl # S.ttl)
@@ -496,7 +501,7 @@ J_C07(S, a, site, inp, S2, o, G, G2) ==
     [] site = "W_PutCheck" /\ a = "worker" /\ Sync(G, a, site, o) ->
          LET k == L.key
              rejected == o.next = "W_Recv" /\ L.cmd.ack \in DOMAIN S2.ack /\ S2.ack[L.cmd.ack].st = StRejExists
-         IN (IF rejected THEN RejExistsVerdict(S, k) ELSE <<>>)
+         IN (IF rejected THEN RejExistsVerdict(S, G, k) ELSE <<>>)
             \o (IF Readable(S, k) /\ ~rejected
                 THEN <<V("C07", "violation", "", "a queued put of a readable key was not rejected with KeyAlreadyExists")>> ELSE <<>>)
     [] a = "worker" /\ Sync(G, a, site, o) /\ L.cmd.kind \in {"put", "putttl"} /\ site \notin {"W_PutCheck", "W_Recv"}
@@ -613,6 +618,14 @@ J_C10(S, a, site, inp, S2, o, G, G2) ==
          <<V("C10", "violation", "", "the sweep visits a shard other than the one of the current time")>>
     [] OTHER -> <<>>
 
+\* C04 / C07 at quiescence: a delete mark never outlives the deletes (the entry would read as absent for ever and still refuse puts)
+J_C04q(S, a, site, inp, S2, o, G, G2) ==
+  IF ~Quiescent(S2) \/ S2.shut \/ G.shutSeen \/ G2.dead # {} \/ G2.ops # EmptyFn THEN <<>>
+  ELSE IF \E k \in DOMAIN S2.store : S2.store[k].soft
+       THEN <<V("C07", "violation", "", "an entry marked as deleted stays in the store when no operation is in flight: the key reads as absent but every put of it is refused as existing"),
+              V("C04", "violation", "", "a delete completed but its entry (marked as deleted) is still in the store")>>
+       ELSE <<>>
+
 \* C10 at quiescence: every live entry with a deadline is registered in the index under that deadline
 J_C10q(S, a, site, inp, S2, o, G, G2) ==
   IF ~Quiescent(S2) \/ S2.shut \/ G.shutSeen \/ G2.dead # {} THEN <<>>
@@ -625,6 +638,9 @@ J_C10q(S, a, site, inp, S2, o, G, G2) ==
                                    IF S2.store[k].id \in DOMAIN G2.stale THEN G2.stale[S2.store[k].id] ELSE G2.taintK[k],
                    "expiry index out of step with the store after a recorded race")>>
           ELSE <<V("C10", "violation", "", "a key with a time to live is not registered for expiry: it would never be swept")>>
+               \o (IF \E k \in missing : Get(G2.e3, k, [mode |-> "none", val |-> NoVal, dl |-> NoExp, src |-> "none"]).src = "pou"
+                   THEN <<V("C08", "violation", "", "the time to live set by an accepted upsert is not the one registered for expiry: the change was not carried into the expiry index")>>
+                   ELSE <<>>)
 
 -----------------------------------------------------------------------------
 (* C11: exactly once, one at a time, in submission order *)
@@ -788,6 +804,7 @@ Judge(S, a, site, inp, S2, o, G, G2) ==
   \o J_C09(S, a, site, inp, S2, o, G, G2)
   \o J_C10(S, a, site, inp, S2, o, G, G2)
   \o J_C10q(S, a, site, inp, S2, o, G, G2)
+  \o J_C04q(S, a, site, inp, S2, o, G, G2)
   \o J_C11(S, a, site, inp, S2, o, G, G2)
   \o J_C13(S, a, site, inp, S2, o, G, G2)
   \o J_C14sys(S, a, site, inp, S2, o, G, G2)
